@@ -31,28 +31,32 @@ def _module_level_names(tree) -> set:
     return names
 
 
-def _is_shared_target(t, module_names, global_names) -> bool:
+def _is_shared_target(t, module_names, global_names, only_global=False) -> bool:
+    """only_global: the store goes into a module-level object (a module-level memo / registry / flag), which every task of the
+    process can see whatever objects it was given"""
     if isinstance(t, (ast.Tuple, ast.List)):
-        return any(_is_shared_target(e, module_names, global_names) for e in t.elts)
+        return any(_is_shared_target(e, module_names, global_names, only_global) for e in t.elts)
     if isinstance(t, ast.Starred):
-        return _is_shared_target(t.value, module_names, global_names)
-    if isinstance(t, ast.Attribute):
-        return True
-    if isinstance(t, ast.Subscript):
+        return _is_shared_target(t.value, module_names, global_names, only_global)
+    if isinstance(t, (ast.Attribute, ast.Subscript)):
         base = t.value
-        while isinstance(base, ast.Subscript):
+        while isinstance(base, (ast.Subscript, ast.Attribute)):
             base = base.value
-        if isinstance(base, ast.Attribute):
+        is_global = isinstance(base, ast.Name) and base.id in module_names and base.id not in ("self", "cls")
+        if only_global:
+            return is_global
+        if isinstance(t, ast.Attribute):
             return True
-        if isinstance(base, ast.Name) and base.id in module_names:
-            return True
-        return False
+        inner = t.value
+        while isinstance(inner, ast.Subscript):
+            inner = inner.value
+        return isinstance(inner, ast.Attribute) or is_global
     if isinstance(t, ast.Name):
         return t.id in global_names
     return False
 
 
-def _scan(path) -> frozenset:
+def _scan(path, only_global=False) -> frozenset:
     try:
         with open(path, "rb") as f:
             tree = ast.parse(f.read())
@@ -77,22 +81,22 @@ def _scan(path) -> frozenset:
                 targets = [n.target]
             elif isinstance(n, ast.Delete):
                 targets = n.targets
-            if any(_is_shared_target(t, module_names, global_names) for t in targets):
+            if any(_is_shared_target(t, module_names, global_names, only_global) for t in targets):
                 lines.add(n.lineno)
     return frozenset(lines)
 
 
-def shared_write_lines(root: str) -> dict:
+def shared_write_lines(root: str, only_global: bool = False) -> dict:
     """{absolute filename: frozenset(line numbers)} for every .py file under `root`"""
-    tab = _TABLES.get(root)
+    tab = _TABLES.get((root, only_global))
     if tab is None:
         tab = {}
         for d, _dirs, files in sorted(os.walk(root)):
             for fn in sorted(files):
                 if fn.endswith(".py"):
                     p = os.path.join(d, fn)
-                    s = _scan(p)
+                    s = _scan(p, only_global)
                     if s:
                         tab[p] = s
-        _TABLES[root] = tab
+        _TABLES[(root, only_global)] = tab
     return tab
